@@ -411,7 +411,9 @@ class StringValue(Value):
         if value[-1] != value[0]:
             raise ValueTypeError("string must begin and end with same delimiter")
         self.original_string = value[1:-1]
-        self.hex_array = ["{:X}".format(ord(x)) for x in value[1:-1]]
+        if any(ord(x) > 0xFF for x in value[1:-1]):
+            raise ValueTypeError("string holds a character that does not fit in a byte")
+        self.hex_array = ["{:02X}".format(ord(x)) for x in value[1:-1]]
 
     def hex(self, size=0):
         return "".join(self.hex_array)
